@@ -743,6 +743,9 @@ class PybindWrapper:
 
         # Reset the serializing classes list
         self._serializing_classes = []
+        # ... and the documentation parser: its memory of the overloads
+        # documented so far belongs to the file just wrapped.
+        self.xml_parser = XMLDocParser()
 
         submodules_init = []
 
